@@ -367,7 +367,7 @@ def g_obs(o, i, nprobe):
         stage = 0 if o["reload"] == "ok" else 1 if o["reload"] == "skipped" else 9
     bl = lambda l: glist(l or [], gbool)
     return "(mkObs %s %s %s %s %s %s %s %s)" % (gN(parse), gN(stage), gbool(hk_ok(o)), bl(o["covert"]), gbool(bool(o["loop"])),
-                                                bl(o["domain"]), bl(o["phantom"]), glist(o["gens"] or [], gN))
+                                                bl(o["domain"]), bl(o["phantom"]), glist([g if g >= 0 else 99999 for g in (o["gens"] or [])], gN))
 
 
 def run(ctx):
@@ -389,6 +389,9 @@ def run(ctx):
                        "type-error / syntax-error / unreadable / empty configuration files x valid / malformed / unreadable subnet files; "
                        "non-trivial = hash-distinct case whose start-up reaches a verdict (accepted or a distinct rejection class)")
     ctx.coq_props()
+    rc_ex, out_ex = ctx.coq_make(["C19/Examples.vo"])
+    if rc_ex != 0:
+        ctx.broken("examples", "non-vacuity examples no longer check: " + out_ex[-400:])
     shipped_ok = shipped_selfcheck(ctx)
     cases = gen_cases(ctx)
     js = []
